@@ -3,7 +3,7 @@
    entirely inside its parent" is FALSE for the library as it stands (Properties/C07Findings.v,
    known findings C07-overrun-...); the theorems below are the parts that hold. *)
 From NDN Require Import Base.Prelude Model.TlvVar Model.Name Model.Tlv Model.Packet Spec.StrictTlv Spec.TlvWf.
-From NDN Require Import Proofs.TlvMore Proofs.PacketDecode Proofs.PacketTotal Proofs.PacketProps.
+From NDN Require Import Proofs.TlvMore Proofs.PacketDecode Proofs.PacketTotal Proofs.PacketProps Proofs.TlvVarBridge.
 Local Open Scope N_scope.
 
 (* every byte string is accepted or rejected with a documented decoding error (DecodeError, IndexError,
@@ -74,3 +74,8 @@ Example C07_example :
   let w := [6; 9; 7; 3; 8; 1; 97; 21; 2; 104; 105] in
   exists vs, dec_data w = Ok vs /\ strict_data w = Ok vs /\ field_value Generated.Schemas.ndn_format_0_3_DataPacketValue vs 21 = VBytes [104; 105].
 Proof. eexists. vm_compute. repeat split; reflexivity. Qed.
+
+(* T2 tie: the outer Type/Length check translated from the source on this run is the model's *)
+Theorem C07_tie_parse_and_check_tl wire (t : N) :
+  wf_bytes wire -> Generated.TlvVarGen.parse_and_check_tl wire (Z.of_N t) = parse_and_check_tl wire t.
+Proof. exact (Proofs.TlvVarBridge.gen_pact_eq wire t). Qed.
